@@ -490,10 +490,16 @@ func (e *expression) Value(ctx *hcl.EvalContext) (cty.Value, hcl.Diagnostics) {
 			}
 			nameStr := name.AsString()
 			if _, defined := attrs[nameStr]; defined {
+				// The name is quoted in the message only when it carried no
+				// marks, since otherwise it might be sensitive.
+				nameDesc := "with the same name"
+				if len(nameMarks) == 0 {
+					nameDesc = fmt.Sprintf("named %q", nameStr)
+				}
 				diags = append(diags, &hcl.Diagnostic{
 					Severity:    hcl.DiagError,
 					Summary:     "Duplicate object attribute",
-					Detail:      fmt.Sprintf("An attribute named %q was already defined at %s.", nameStr, attrRanges[nameStr]),
+					Detail:      fmt.Sprintf("An attribute %s was already defined at %s.", nameDesc, attrRanges[nameStr]),
 					Subject:     &jsonAttr.NameRange,
 					Expression:  e,
 					EvalContext: ctx,
